@@ -785,7 +785,10 @@ impl<T> ValVec32<T> {
             return Ok(());
         }
 
-        let additional = slice.len() as u32;
+        // A slice longer than u32::MAX must be refused: `as u32` would drop the high bits,
+        // reserve room for the remainder only and then write `slice.len()` elements.
+        let additional = u32::try_from(slice.len())
+            .map_err(|_| ZiporaError::invalid_data("Length overflow"))?;
         let new_len = self
             .len
             .checked_add(additional)
@@ -833,7 +836,10 @@ impl<T> ValVec32<T> {
             return Ok(());
         }
 
-        let additional = slice.len() as u32;
+        // A slice longer than u32::MAX must be refused: `as u32` would drop the high bits,
+        // reserve room for the remainder only and then write `slice.len()` elements.
+        let additional = u32::try_from(slice.len())
+            .map_err(|_| ZiporaError::invalid_data("Length overflow"))?;
         let new_len = self
             .len
             .checked_add(additional)
